@@ -605,7 +605,7 @@ class Interp:
         if isinstance(st, ast.Assert):
             c = self.eval(st.test, frame)
             if not ctx.branch(truth(ctx, c), f"assert@{st.lineno}"):
-                raise PyRaise("AssertionError", ast.unparse(st.test))
+                raise PyRaise("AssertionError", ast.unparse(st.test), origin="repo")
             return
         if isinstance(st, ast.Raise):
             if st.exc is None:
@@ -616,7 +616,7 @@ class Interp:
             else:
                 fn = self.eval(e, frame)
             if isinstance(fn, (ExcClass, ExcInstance)):
-                raise PyRaise(fn.name, "")
+                raise PyRaise(fn.name, "", origin="repo")
             raise Unsupported("raise of a non-builtin exception")
         if isinstance(st, ast.FunctionDef):
             frame.vars[st.name] = FuncRef(RepoFunc(f"{frame.func.qualname}.<locals>.{st.name}", st, frame.module),
